@@ -1454,3 +1454,152 @@ def learnMemoOK (batchable : Bool) (memo : Option Nat) (arg : Arg) : Bool :=
 
 
 end Coba.C15
+
+/-! ## Phase 5: nan, and `possible_pmf` / `pred_format` as the source writes them -/
+
+namespace Coba.C15
+
+/-! ### nan
+`float('nan')` objects are represented inside the existing value domain (no new constructor, so every case
+split about `PyVal` stands): the nan object created by `r` is the float token `mkNan r`, whose rational
+payload is a code of `r` below `nanBound`, a range no real float of a checked case lies in (`PyVal.nanFree`).
+Python compares container items with `x is y or x == y` (`PyObject_RichCompareBool`; `list.__eq__`, `in`), and
+`nan == y` is False for every y: `richEq` below says exactly that on a wrapper type with an explicit nan, and
+`nan_encoding_faithful` (Props) proves that the model's `pyIs || pyEq` on the tokens computes it. -/
+
+def Ref.code : Ref → Nat
+  | .ext n => 4 * n | .safe n => 4 * n + 1 | .lrn n => 4 * n + 2 | .tmp => 3
+
+def nanBound : Rat := -1099511627776
+def nanVal (k : Nat) : Rat := nanBound - 1 - (k : Rat)
+/-- the nan object made by `r` -/
+def mkNan (r : Ref) : PyVal := .flt r (nanVal r.code)
+def isNanVal (q : Rat) : Bool := decide (q < nanBound)
+/-- is the value itself a nan token? -/
+def PyVal.isNan : PyVal → Bool | .flt _ q => isNanVal q | _ => false
+/-- a number that is not in the token range (any non-number qualifies) -/
+def PyVal.nanFree (v : PyVal) : Bool := match v.num with | some q => !isNanVal q | Option.none => true
+
+/-- a number object is not the nan object made by `r` (one object is either a nan or a number) -/
+def objDistinct (r : Ref) : PyVal → Bool
+  | .flt r' _ => r != r'
+  | _ => true
+
+/-- Python values with an explicit nan -/
+inductive NVal
+  | nan (r : Ref)
+  | val (v : PyVal)
+
+def NVal.enc : NVal → PyVal
+  | .nan r => mkNan r
+  | .val v => v
+
+/-- `PyObject_RichCompareBool(x, y, Py_EQ)` = `x is y or x == y`, with `nan == y` False for every y -/
+def richEq : NVal → NVal → Bool
+  | .nan r, .nan r' => r == r'
+  | .nan _, .val _ => false
+  | .val _, .nan _ => false
+  | .val a, .val b => pyIs a b || pyEq a b
+
+/-- `list.__eq__` (what `_prev_actions != actions` negates) -/
+def richEqList : List NVal → List NVal → Bool
+  | [], [] => true
+  | x :: xs, y :: ys => richEq x y && richEqList xs ys
+  | _, _ => false
+
+/-- reading a model value back: a float in the token range is the nan object of its ref -/
+def NVal.ofPy : PyVal → NVal
+  | .flt r q => if isNanVal q then .nan r else .val (.flt r q)
+  | v => .val v
+
+/-- the model's comparison of container items -/
+def itemEq (a b : PyVal) : Bool := pyIs a b || pyEq a b
+
+end Coba.C15
+
+/-! ### `pred_format` as a decision tree (the translator writes the tree of the CURRENT source into
+`Generated/C15PredFormat.lean`; `pred_format_table` proves that running it is `predFormat Fixes.all`) -/
+
+namespace Coba.C15
+
+/-- the tests `pred_format` makes (the translator maps the source text of each `if` test to one of these; any other text is `unknown`) -/
+inductive PFAtom
+  | isDict          -- isinstance(std_pred, dict)
+  | hasPmf          -- 'pmf' in std_pred
+  | noActions       -- not actions
+  | pmfLenBad       -- no_len(pmf) or len(pmf) != len(actions)
+  | hasAction       -- 'action' in std_pred
+  | hasAP           -- 'action_prob' in std_pred
+  | apLenBad        -- no_len(ap) or len(ap) != 2
+  | scalarLike      -- no_len(std_pred) or isinstance(std_pred, (str, dict))
+  | lenNe2          -- len(std_pred) != 2
+  | lenEq2          -- len(std_pred) == 2
+  | actionsEmpty    -- actions == [] or actions is None
+  | itemIsAction    -- any(std_pred[0] is a for a in actions)
+  | possPmf         -- SafeLearner.possible_pmf(std_pred[0], actions)
+  | possAct         -- SafeLearner.possible_action(std_pred[0], actions)
+  | unknown
+deriving DecidableEq, Repr
+
+/-- the statements of `pred_format`'s body -/
+inductive PFStmt
+  | ite (c : PFAtom) (thn els : List PFStmt)
+  | ret (kind : Kind) (star : Bool)      -- return 'PM*' …
+  | raise                                -- raise <one of the CobaExceptions built at the top>
+  | wrap                                 -- std_pred = [std_pred]
+  | bind (key : String)                  -- pmf = std_pred['pmf']
+  | skip                                 -- pass
+  | unknown
+deriving Repr
+
+inductive PFRes
+  | done (r : Except Err PFmt)
+  | cont (wrapped : Bool)
+
+/-- `std_pred[0]` after / before `std_pred = [std_pred]` -/
+def pfItem (sp : PyVal) (wrapped : Bool) : Except Err PyVal := if wrapped then .ok sp else getIdx sp 0
+
+def pfEval (sp : PyVal) (acts : List PyVal) (wrapped : Bool) : PFAtom → Except Err Bool
+  | .isDict => .ok sp.isDict
+  | .hasPmf => .ok (hasKey "pmf" sp)
+  | .hasAction => .ok (hasKey "action" sp)
+  | .hasAP => .ok (hasKey "action_prob" sp)
+  | .noActions => .ok acts.isEmpty
+  | .actionsEmpty => .ok acts.isEmpty
+  | .pmfLenBad => do let pmf ← getKey "pmf" sp; pure (!pmf.hasLen || pmf.len != acts.length)
+  | .apLenBad => do let ap ← getKey "action_prob" sp; pure (!ap.hasLen || ap.len != 2)
+  | .scalarLike => .ok (!sp.hasLen || sp.isStr || sp.isDict)
+  | .lenNe2 => .ok (sp.len != 2)
+  | .lenEq2 => .ok (if wrapped then false else sp.len == 2)
+  | .itemIsAction => do let x ← pfItem sp wrapped; pure (acts.any (fun a => pyIs x a))
+  | .possPmf => do let x ← pfItem sp wrapped; pure (possiblePmf x acts)
+  | .possAct => do let x ← pfItem sp wrapped; pure (possibleAction x acts)
+  | .unknown => .error .other
+
+mutual
+def pfExec (sp : PyVal) (acts : List PyVal) : PFStmt → Bool → PFRes
+  | .ite c t e, w =>
+    match pfEval sp acts w c with
+    | .ok b => if b then pfExecL sp acts t w else pfExecL sp acts e w
+    | .error e => .done (.error e)
+  | .ret k s, _ => .done (.ok ⟨k, s⟩)
+  | .raise, _ => .done (.error .coba)
+  | .wrap, _ => .cont true
+  | .bind k, w => match getKey k sp with | .ok _ => .cont w | .error e => .done (.error e)
+  | .skip, w => .cont w
+  | .unknown, _ => .done (.error .other)
+def pfExecL (sp : PyVal) (acts : List PyVal) : List PFStmt → Bool → PFRes
+  | [], w => .cont w
+  | s :: ss, w =>
+    match pfExec sp acts s w with
+    | .cont w' => pfExecL sp acts ss w'
+    | .done r => .done r
+end
+
+/-- run a `pred_format` body on (std_pred, actions) -/
+def pfRun (tree : List PFStmt) (sp : PyVal) (actions : Option (List PyVal)) : Except Err PFmt :=
+  match pfExecL sp (actions.getD []) tree false with
+  | .done r => r
+  | .cont _ => .error .other
+
+end Coba.C15
